@@ -79,13 +79,14 @@ namespace c18
                 LoadStoreOutcome o;
                 o.supported = true;
                 using B = xsimd::batch<T>;
-                struct sigaction sa, old_segv, old_bus;
+                struct sigaction sa, old_segv, old_bus, old_abrt;
                 memset(&sa, 0, sizeof sa);
                 sa.sa_handler = on_fault;
                 sigemptyset(&sa.sa_mask);
                 sa.sa_flags = SA_NODEFER;
                 sigaction(SIGSEGV, &sa, &old_segv);
                 sigaction(SIGBUS, &sa, &old_bus);
+                sigaction(SIGABRT, &sa, &old_abrt); // the library's own assert(is_aligned(..)) counts as the fault it guards against
                 std::vector<unsigned char> before((unsigned char*)p, (unsigned char*)p + n * sizeof(T));
                 if (sigsetjmp(g_jmp, 1) == 0)
                 {
@@ -106,6 +107,7 @@ namespace c18
                 }
                 sigaction(SIGSEGV, &old_segv, nullptr);
                 sigaction(SIGBUS, &old_bus, nullptr);
+                sigaction(SIGABRT, &old_abrt, nullptr);
                 o.changed = memcmp(before.data(), p, before.size()) != 0;
                 return o;
             }
@@ -196,5 +198,14 @@ namespace c18
         out.push_back(new DefaultClient<int16_t>("i16"));
         out.push_back(new DefaultClient<float>("f32"));
         out.push_back(new DefaultClient<double>("f64"));
+        // every other element type that has a batch: the default alignment is per element type
+        out.push_back(new DefaultClient<uint8_t>("u8"));
+        out.push_back(new DefaultClient<uint16_t>("u16"));
+        out.push_back(new DefaultClient<int32_t>("i32"));
+        out.push_back(new DefaultClient<uint32_t>("u32"));
+        out.push_back(new DefaultClient<int64_t>("i64"));
+        out.push_back(new DefaultClient<uint64_t>("u64"));
+        out.push_back(new DefaultClient<std::complex<float>>("complex<float>"));
+        out.push_back(new DefaultClient<std::complex<double>>("complex<double>"));
     }
 }
